@@ -218,7 +218,12 @@ def enc_name(n):
 
 
 def enc_filters(fs):
-    return "[%s]" % ";".join("[%s]" % ";".join(enc_elem(e) for e in f) for f in fs)
+    return "([%s] : list (list elem))" % ";".join("[%s]" % ";".join(enc_elem(e) for e in f) for f in fs)
+
+
+def tlist(enc, ty):
+    """typed list literal (an empty untyped `[]` cannot be elaborated in the first row of a case table)"""
+    return lambda l: "([%s] : list %s)" % (";".join(enc(x) for x in l), ty)
 
 
 def xml_elem(e):
@@ -426,7 +431,8 @@ def rfc_overlaps(o, r):
     s = -INF if r[0] is None else r[0]
     e = INF if r[1] is None else r[1]
     t = o["t"]
-    horizon = (r[1] if r[1] is not None else r[0]) + 40 * DAY
+    anchors = [x for x in (r[0], r[1], ref_start(o)) if x is not None]
+    horizon = max(anchors) + 200 * DAY        # unbounded rules: far enough to contain an instance after every bound
     if t == "VEVENT":
         return any(rfc_rows(o, D, s, e) for D in occurrences(o["start"], o["rec"], horizon))
     if t == "VJOURNAL":
